@@ -278,11 +278,56 @@ class Gen:
             k = self.sessions.get(s, (0, True))[0]
             self.objects[r['h']] = {'tok': k, 'token': None, 'private': None, 'label': None}
 
+    def op_copyflip(self):
+        """directed (C11 / C01): a copy whose privacy or storage differs from its source, then a logout / close, then every
+        handle is probed: a handle lives and dies with the object it denotes, not with the one it was copied from"""
+        k = self.r.randrange(self.ntok)
+        if k not in self.user:
+            return
+        q = self.emit('open t%d rw' % k)
+        s = q.get('h')
+        if not s:
+            return
+        self.sessions[s] = (k, True)
+        self.emit('login %s 1 %s' % (s, self.user[k]))
+        tok, priv = self.r.choice([(1, 0), (1, 0), (1, 1), (0, 0), (0, 1)])
+        lab = self.new_label()
+        r = self.emit('create %s 0=u:0 1=b:%d 2=b:%d 3=x:%s 0x11=x:%s' % (s, tok, priv, lab, lab))
+        if not r.get('h'):
+            return
+        self.objects[r['h']] = {'tok': k, 'token': bool(tok), 'private': bool(priv), 'label': lab}
+        items = ['3=x:%s' % self.new_label(), '2=b:%d' % (1 - priv if self.r.random() < 0.8 else priv)]
+        if self.r.random() < 0.4:
+            items.append('1=b:%d' % (1 - tok))
+        self.r.shuffle(items)
+        c = self.emit('copy %s %s %s' % (s, r['h'], ' '.join(items)))
+        if c.get('h'):
+            self.objects[c['h']] = {'tok': k, 'token': None, 'private': None, 'label': None}
+        how = self.r.random()
+        if how < 0.6:
+            self.emit('logout %s' % s)
+        elif how < 0.8:
+            self.emit('close %s' % s)
+            self.sessions.pop(s, None)
+            self.closed.append(s)
+        self.op_probe()
+        if self.r.random() < 0.5 and s in self.sessions:
+            self.emit('login %s 1 %s' % (s, self.user[k]))
+            self.op_probe()
+
     def op_find(self):
         s = self.any_session()
         items = []
         c = self.r.random()
-        if c < 0.4:
+        if self.r.random() < 0.12:
+            # an attribute the data objects do not have, before or after one they have: such a template matches nothing
+            absent = self.r.choice(['0x100=u:31', '0x102=x:01', '0x103=b:0', '0x104=b:1', '0x162=b:1'])
+            has = self.r.choice(['0=u:0', '1=b:1', '1=b:0', '2=b:0', '3=x:%s' % (self.objects[self.r.choice(sorted(self.objects))].get('label') or '') if self.objects else '0=u:0'])
+            items = [absent, has] if self.r.random() < 0.7 else [has, absent]
+            c = 2.0
+        if c >= 2.0:
+            pass
+        elif c < 0.4:
             pass
         elif c < 0.6 and self.objects:
             o = self.objects[self.r.choice(sorted(self.objects))]
@@ -296,10 +341,16 @@ class Gen:
             items += ['0=u:0', '1=b:1']
         else:
             items.append(self.r.choice(['0x100=u:31', '3=x:', '0x10=x:617070', '0=u:3', '1=x:0101', '0x11=x:']))
-        r = self.emit('findinit %s %s' % (s, ' '.join(items)))
-        sizes = [self.r.choice([0, 1, 2, 3, 50]) for _ in range(self.r.randint(1, 4))] + [50]
+        sizes = [self.r.choice([0, 1, 2, 3, 50]) for _ in range(self.r.randint(1, 4))] + [2000]
         if self.r.random() < 0.15:
+            # a search that is not read to its end.  C_FindObjectsInit gives handles to every object it matches; the order
+            # in which it registers objects it sees for the first time is not a function of the history (DESIGN.md 2.4) and
+            # is taken from what the search returns - so everything visible is registered by a complete search first
             sizes = sizes[:1]
+            self.emit('findinit %s' % s)
+            self.emit('findseq %s 2000' % s)
+            self.emit('findfinal %s' % s)
+        r = self.emit('findinit %s %s' % (s, ' '.join(items)))
         self.emit('findseq %s %s' % (s, ' '.join('%d' % z for z in sizes)))
         if self.r.random() < 0.9:
             self.emit('findfinal %s' % s)
@@ -363,7 +414,7 @@ class Gen:
                 self.emit('login %s 0 %s' % (s, self.so[k]))
         self.emit('sinfo %s' % use)
         self.emit('findinit %s' % use)
-        q = self.emit('findseq %s 50' % use)
+        q = self.emit('findseq %s 2000' % use)
         self.emit('findfinal %s' % use)
         names = list(made)
         if q.get('objs') is not None:
@@ -400,9 +451,9 @@ class Gen:
         'session': [('open', 22), ('close', 12), ('closeall', 4), ('login', 22), ('logout', 8), ('sinfo_all', 10), ('sinfo', 4),
                     ('initpin', 5), ('setpin', 6), ('inittoken', 5), ('restart', 2)],
         'objects': [('matrix', 6), ('open', 10), ('close', 5), ('closeall', 2), ('login', 12), ('logout', 5), ('create', 22), ('destroy', 7),
-                    ('getattr', 12), ('setattr', 7), ('copy', 7), ('find', 10), ('sinfo', 2), ('restart', 2), ('inittoken', 1)],
+                    ('getattr', 12), ('setattr', 7), ('copy', 7), ('find', 10), ('sinfo', 2), ('restart', 2), ('inittoken', 1), ('copyflip', 3)],
         'handles': [('open', 14), ('close', 10), ('closeall', 3), ('login', 10), ('logout', 6), ('create', 20), ('destroy', 8),
-                    ('copy', 5), ('find', 8), ('probe', 12), ('restart', 1)],
+                    ('copy', 5), ('find', 8), ('probe', 12), ('restart', 1), ('copyflip', 5)],
         'find': [('open', 8), ('close', 3), ('login', 10), ('logout', 4), ('create', 30), ('destroy', 6), ('find', 30), ('setattr', 4),
                  ('copy', 4), ('restart', 2), ('closeall', 1)],
         'tokens': [('inittoken', 14), ('open', 12), ('close', 6), ('closeall', 4), ('login', 12), ('logout', 5), ('create', 14), ('destroy', 4),
